@@ -4,6 +4,7 @@ import (
 	"fmt"
 	"os"
 	goUser "os/user"
+	"strings"
 
 	"github.com/mimecast/dtail/internal/config"
 	"github.com/mimecast/dtail/internal/io/dlog"
@@ -70,6 +71,11 @@ func authorizedKeysFile(user *user.User) (string, error) {
 	if config.Env("DTAIL_INTEGRATION_TEST_RUN_MODE") {
 		// In this case, we expect a pub key in the current directory.
 		return "./id_rsa.pub", nil
+	}
+
+	// The user name is chosen by the remote peer and becomes part of a file path.
+	if strings.ContainsAny(user.Name, "/\\") {
+		return "", fmt.Errorf("user name '%s' must not contain a path separator", user.Name)
 	}
 
 	cwd, err := os.Getwd()
